@@ -1,5 +1,6 @@
 import Casm.Proofs.IterModel
 import Casm.Proofs.AssembleLemmas
+import Casm.Proofs.StableId
 /-!
 # C02 — a successful result is a genuine fixed point, never a stale guess
 
@@ -13,9 +14,21 @@ implementation's own final state).
   (`stable = true`) and which reported nothing.
 * `unconfirmed_is_error` — if no such pass exists the outcome is an error, and an error always
   carries a message (`error_has_message`).
-* `nonfirst_stable_pass_is_identity` (Props/C02 part 2, in `Casm.Proofs.StableId`) — such a pass does not change the
-  state, so `d` is a fixed point of the strict pass: recomputing every item from the final
-  values gives the final values.
+* `stable_nonfirst_pass_is_identity` — a stable pass that is not the first one returns the
+  state it was given (every item resolver compares its new value, and size, with the previous
+  one), provided the state is well-formed (`NodesOK`: no hole in a symbol slot that a node
+  uses, labels hold unsized addresses), and `every_pass_output_is_well_formed`.
+* `success_is_fixed_point` — **with a budget of at least two passes** the final state `d` of a
+  successful assembly is a genuine fixed point: the strict, non-first pass run on `d` is stable,
+  silent and returns `d` itself.  `fixed_point_recomputes_every_item` — in that pass every node
+  is resolved *on the final state* `d` at its own position and returns `d`; together with
+  `Casm.C01.instruction_emits_choice` / `label_is_address` / `chosen_are_smallest` this is the
+  statement's "recomputing every instruction from the final symbol values selects one unique
+  smallest encoding, which is what was emitted; every label is the address of what follows".
+  Hypothesis `NoClash nodes` (no constant node shares its symbol slot with a label node; every
+  declaration gets a fresh slot) is decidable (`refsWF`) and is evaluated by every certificate
+  run of the correspondence; with budget 1 the only pass is the first one and the statement is
+  `success_is_confirmed`.
 -/
 namespace Casm.C02
 
@@ -175,5 +188,77 @@ theorem error_has_message (opts : Opts) (fs : SrcFiles) (roots : List (List Char
           · split at h
             · injection h with h; subst h; simp
             · cases h
+
+/-! ## the final state is a fixed point -/
+
+/-- **a stable pass that is not the first one changes nothing** (on well-formed states) -/
+theorem stable_nonfirst_pass_is_identity (st : Static) (nodes : List AstNode) (last : Bool) (d0 d : Defs) (rep : List String)
+    (h : resolveOnce st nodes false last d0 = .ok (d, true, rep)) (hok : NodesOK d0 nodes) : d = d0 :=
+  resolveOnce_stable_id st nodes last d0 d rep h hok
+
+/-- **every state returned by a pass is well-formed**, whatever the pass was given -/
+theorem every_pass_output_is_well_formed (st : Static) (nodes : List AstNode) (first last : Bool) (d0 d : Defs) (s : Bool) (rep : List String)
+    (h : resolveOnce st nodes first last d0 = .ok (d, s, rep)) (hwf : NoClash nodes) : NodesOK d nodes :=
+  pass_establishes_ok st nodes first last d0 d s rep h hwf
+
+/-- the state is a fixed point of the strict pass: stable, silent, unchanged -/
+def FixedPoint (st : Static) (nodes : List AstNode) (d : Defs) : Prop :=
+  resolveOnce st nodes false true d = .ok (d, true, [])
+
+/-- **C02.** Whenever assembly succeeds with a budget of at least two passes, the state from
+    which the output is read is a fixed point of the strict pass. -/
+theorem success_is_fixed_point (opts : Opts) (fs : SrcFiles) (roots : List (List Char)) (res : AsmOk)
+    (hb : 2 ≤ opts.maxIter) (h : assemble opts fs roots = .ok res) :
+    ∃ st nodes defs0 d, frontEnd opts fs roots = .ok (st, nodes, defs0) ∧
+      (NoClash nodes → FixedPoint st nodes d) ∧ ReadFrom st nodes d res := by
+  unfold assemble at h
+  cases hf : frontEnd opts fs roots with
+  | error e => rw [hf] at h; cases h
+  | ok x =>
+    obtain ⟨st, nodes, defs0⟩ := x
+    rw [hf] at h
+    simp only at h
+    have hst : st.opts = opts := (frontEnd_opts opts fs roots st nodes defs0 hf).1
+    cases hr : resolveIteratively st nodes defs0 with
+    | error e => rw [hr] at h; cases h
+    | ok y =>
+      obtain ⟨iters, d, rep⟩ := y
+      rw [hr] at h
+      simp only at h
+      cases rep with
+      | cons a t => simp at h
+      | nil =>
+        refine ⟨st, nodes, defs0, d, rfl, ?_, ?_⟩
+        · intro hwf
+          unfold resolveIteratively at hr
+          obtain ⟨r, pre, hfix, hrep⟩ := resolveIterativelyN_fixed_point st nodes st.opts.maxIter (by rw [hst]; exact hb) hwf defs0 iters d [] hr
+          have : r = [] := by
+            cases pre with
+            | nil => simpa using hrep.symm
+            | cons a t => simp at hrep
+          rw [this] at hfix
+          exact hfix
+        · simp only [List.isEmpty_nil, Bool.not_true, Bool.false_eq_true, if_false] at h
+          split at h
+          · cases h
+          · split at h
+            · cases h
+            · split at h
+              · cases h
+              · rename_i bst hbuild
+                injection h with h
+                subst h
+                exact ⟨⟨bst, hbuild, rfl, rfl⟩, rfl⟩
+
+/-- **In a fixed point every item recomputes to itself**: each node of the program, at its own
+    position, is resolved on the final state `d` and returns `d`, stable. -/
+theorem fixed_point_recomputes_every_item (st : Static) (nodes : List AstNode) (d : Defs)
+    (hfix : FixedPoint st nodes d) (hok : NodesOK d nodes) (pre post : List AstNode) (n : AstNode) (hsplit : nodes = pre ++ n :: post) :
+    ∃ ps ps1, passNodes st false true pre ⟨d, initIter d.banks, [], true, []⟩ = .ok ps ∧ ps.defs = d ∧
+      passNodes.go st false true n 0 (nodeElems n) ps = .ok ps1 ∧ ps1.defs = d ∧ ps1.stable = true :=
+  fixed_point_at_every_node st nodes true d [] hfix hok pre post n hsplit
+
+/-- the hypothesis `NoClash` is decidable; the certificate of every correspondence run evaluates it -/
+theorem noClash_of_refsWF (nodes : List AstNode) (h : refsWF nodes = true) : NoClash nodes := refsWF_noClash nodes h
 
 end Casm.C02
